@@ -87,7 +87,7 @@ func c12Universe(tier string) *c12Space {
 	}
 	var leaves, elems []*mval
 	if tier == "thorough" {
-		leaves = []*mval{vI(0), vI(1), vI(-1), vF(1.5), vF(2.0), vB(true), vS(""), vS("a"), vNull(), vNone()}
+		leaves = []*mval{vI(0), vI(-1), vF(1.5), vF(2.0), vB(true), vS("a"), vNull(), vNone()}
 		elems = append(append([]*mval{}, leaves...),
 			vL(), vL(vI(0)), vL(vS("a")), vL(vI(0), vS("a")), vL(vNone(), vI(1)), vL(vF(1.5)),
 			vO(), vO("a", vI(0)), vO("a", vS("a")), vO("b", vI(0)), vO("a", vI(0), "b", vS("a")), vO("a", vB(true)),
